@@ -7,9 +7,10 @@
 #include <string.h>
 #include <stdlib.h>
 
-enum { OP_FAST_OVER, OP_GENERAL_ATOP, OP_SAME_TWICE, OP_FILL, OP_REGION, OP_TRAP, OP_SHARED_SRC, OP_GRADIENT, OP_SHARED_GRADIENT, N_BODY_OPS };
+enum { OP_FAST_OVER, OP_GENERAL_ATOP, OP_SAME_TWICE, OP_FILL, OP_REGION, OP_TRAP, OP_SHARED_SRC, OP_GRADIENT, OP_SHARED_GRADIENT, OP_SHARED_CLIPPED_SRC, N_BODY_OPS };
 static const char *body_op_name[N_BODY_OPS] = { "fast-path OVER 8888->8888", "general-path ATOP 8888->0565", "same ADD composite twice (cache hit)", "pixman_fill + fill_rectangles",
-                                                "region32 union/subtract", "rasterize_trapezoid a8", "OVER from the shared source", "linear gradient SRC (general iterators)", "SRC from the shared 4-stop gradient (per-thread origin)" };
+                                                "region32 union/subtract", "rasterize_trapezoid a8", "OVER from the shared source", "linear gradient SRC (general iterators)", "SRC from the shared 4-stop gradient (per-thread origin)",
+                                                "OVER from the shared source that has a two-box client clip with source clipping (per-thread offset)" };
 
 #define DW 3
 #define DH 2
@@ -21,7 +22,7 @@ typedef struct {
     pixman_image_t *dst32, *dst16, *dst8, *src32, *grad;
     pixman_region32_t reg;
     /* shared, read-only after its first use on the main thread */
-    pixman_image_t *shared_src, *shared_grad;
+    pixman_image_t *shared_src, *shared_grad, *shared_clipped;
     int tid;
     uint64_t digest;
 } tctx_t;
@@ -41,6 +42,18 @@ static pixman_image_t *body_make_shared_gradient(void)
     pixman_image_t *g = pixman_image_create_linear_gradient(&p1, &p2, stops, 4);
     pixman_image_set_repeat(g, PIXMAN_REPEAT_PAD);
     return g;
+}
+
+/* a shared source whose own (client) clip has two boxes and applies to it as a source */
+static pixman_image_t *body_make_shared_clipped(uint32_t *pix)
+{
+    for (int i = 0; i < DW * DH; i++) pix[i] = 0xa0705030u + (unsigned)i * 0x05040302u;
+    pixman_image_t *s = pixman_image_create_bits(PIXMAN_a8r8g8b8, DW, DH, pix, DW * 4);
+    pixman_box32_t b[2] = { { 0, 0, 1, DH }, { 2, 0, 3, 1 } };
+    pixman_region32_t r; pixman_region32_init_rects(&r, b, 2);
+    pixman_image_set_clip_region32(s, &r); pixman_region32_fini(&r);
+    pixman_image_set_has_client_clip(s, 1); pixman_image_set_source_clipping(s, 1);
+    return s;
 }
 
 static void body_setup(tctx_t *t, int tid, pixman_image_t *shared_src)
@@ -99,6 +112,9 @@ static void body_run(tctx_t *t, int op)
     case OP_SHARED_GRADIENT:
         /* several threads read one gradient image (validated by its first use on the main thread) at different origins */
         pixman_image_composite32(PIXMAN_OP_SRC, t->shared_grad, NULL, t->dst32, 3 * t->tid, 0, 0, 0, 0, 0, DW, DH); break;
+    case OP_SHARED_CLIPPED_SRC:
+        /* the source's clip has to be brought into destination space with a non-zero offset; the image itself must stay untouched */
+        pixman_image_composite32(PIXMAN_OP_OVER, t->shared_clipped, NULL, t->dst32, t->tid == 0 ? 1 : -1, t->tid == 2 ? 1 : 0, 0, 0, 0, 0, DW, DH); break;
     }
 }
 
